@@ -123,7 +123,13 @@ class C08(core.Check):
                 elif r < 0.9:
                     ops.append(['read', rng.choice(['has', 'get']), rng.choice(more_names)])
                 else:
-                    ops.append(['setAttributes', [[rng.choice(more_names[:10]), rng.choice(VALUES)] for _ in range(rng.randint(0, 3))]])
+                    pairs, seen_n = [], set()
+                    for _ in range(rng.randint(0, 3)):
+                        nn = rng.choice(more_names if rng.random() < 0.5 else more_names[:10])
+                        if nn not in seen_n:
+                            seen_n.add(nn)
+                            pairs.append([nn, rng.choice(VALUES)])
+                    ops.append(['setAttributes', pairs])
             sd = rng.choice(seeds)
             origin = rng.choice(['direct', 'parsed', 'cloned', 'unpickled'])
             attrs = [[rng.choice(['id', 'title', 'checked', 'data-x', 'disabled', 'value']), rng.choice([None, 'v', '', 'two words'])]
